@@ -35,7 +35,7 @@ OWNERS = {
     "bitmap.Getw": ["C14"], "bitmap.Rank64": ["C01"], "bitmap.Rank128": ["C01"],
     "bitstr.Len": ["C09"],
     "bitmap.FromStr32": ["C11"], "bmtree.PathOf": ["C11"],
-    "bitmap.TailBitmap.Get": ["C15"], "bitmap.TailBitmap.Get1": ["C15"], "bitword.bitWord.Get": ["C08"],
+    "bitmap.TailBitmap.Get": ["C15"], "bitmap.TailBitmap.Get1": ["C15"], "bitword.bitWord.Get": ["C08"], "bitword.bitWord.FirstDiff": ["C08"],
     "iohelper.NewSectionWriter": ["C18"], "iohelper.AtToWriter": ["C18"],
     "iohelper.SectionWriter.Seek": ["C18"], "iohelper.SectionWriter.Size": ["C18"],
     # listed to document the bail-out (loops): unsupported in the baseline as well
